@@ -132,3 +132,27 @@ def locate(text, path):
             lo, hi = found[3] + 1, found[4]
     kw, name, s, b, e = found
     return toks[s].start, toks[e].end, (toks[b].start if b is not None else None)
+
+
+def children(text, path):
+    """names of the fn items that are direct children of the container (impl / trait) located by `path`"""
+    toks = significant(lex(text))
+    lo, hi = 0, len(toks)
+    comps = [c.strip() for c in path.split(" / ")]
+    for comp in comps:
+        ordinal = 1
+        if "#" in comp and comp.rsplit("#", 1)[1].strip().isdigit():
+            comp, o = comp.rsplit("#", 1)
+            ordinal = int(o)
+            comp = comp.strip()
+        kw, _, rest = comp.partition(" ")
+        if kw.startswith("impl<"):
+            rest = kw[4:] + " " + rest
+            kw = "impl"
+        want = _norm(rest)
+        hits = [it for it in scan_items(toks, lo, hi) if it[0] == kw and _norm(it[1]) == want]
+        if len(hits) < ordinal or hits[ordinal - 1][3] is None:
+            raise LocateError("container not found: %r" % path)
+        found = hits[ordinal - 1]
+        lo, hi = found[3] + 1, found[4]
+    return [it[1] for it in scan_items(toks, lo, hi) if it[0] == "fn"]
